@@ -9,7 +9,7 @@ from ..model.namespace import Universe
 from .base import Check, Outcome, InvalidScenario
 from . import wcommon as W
 
-DEFECTS = ["missing", "missver", "self", "cycle2", "cycle3", "cycle_expr", "case_short", "case_ns", "case_root", "dup", "case_twin", "case_twin"]
+DEFECTS = ["missing", "missver", "self", "cycle2", "cycle3", "cycle_expr", "case_short", "case_ns", "case_root", "dup", "case_twin", "case_twin", "self_twin", "rel_outer", "rel_outer"]
 
 
 def apply_defect(ws: dict, df: dict) -> tuple[dict, set[str]]:
@@ -76,6 +76,38 @@ def apply_defect(ws: dict, df: dict) -> tuple[dict, set[str]]:
         rname = tgt["name"].split(".")[0]
         ws["roots"].append({"dir": "w/dx/" + rname, "name": rname, "defs": [tgt], "dup": True})
         add_field(at, ["ref", tgt["name"], tgt["ver"][0], tgt["ver"][1]])
+    elif kind == "self_twin":
+        # a self reference, while ANOTHER file with the same name and version (without the self reference) sits in a second
+        # directory that contributes to the same root namespace: the reference must not be satisfied by that twin
+        if T.is_service(d):
+            raise InvalidScenario("self reference to a service")
+        twin = copy.deepcopy(d)
+        twin["port"] = None
+        rname = d["name"].split(".")[0]
+        ws["roots"].append({"dir": "w/dx/" + rname, "name": rname, "defs": [twin], "dup": True})
+        add_field(at, ["ref", d["name"], d["ver"][0], d["ver"][1]] + (["rel"] if df.get("rel") else []))
+    elif kind == "rel_outer":
+        # a name without dots is relative to the referrer's OWN namespace only: a definition of that short name in an enclosing
+        # namespace (or anywhere else) must not be picked up
+        comps = d["name"].split(".")
+        own_ns = ".".join(comps[:-1])
+        cands = []
+        for x in uni.defs.values():
+            xc = x["name"].split(".")
+            xns = ".".join(xc[:-1])
+            if T.is_service(x) or not (own_ns.startswith(xns + ".")) or (x.get("dep") and not d.get("dep")):
+                continue
+            if any(y["name"].lower() == (own_ns + "." + xc[-1]).lower() and y["ver"] == x["ver"] for y in uni.defs.values()):
+                continue
+            cands.append(x)
+        if not cands:
+            raise InvalidScenario("no definition in an enclosing namespace")
+        x = sorted(cands, key=lambda y: T.def_key(y))[df.get("how", 0) % len(cands)]
+        s0 = d["secs"][df.get("sec", 0) % len(d["secs"])]
+        s0["items"].append(["raw", "%s.%d.%d zz_rel_outer" % (x["name"].split(".")[-1], x["ver"][0], x["ver"][1]), []])
+        if isinstance(s0.get("seal"), int):
+            s0["seal"] = s0["seal"] + 8 * 4096
+        bad.add(at)
     elif kind == "case_twin":
         # two definitions whose names differ only by letter case exist side by side (case-sensitive file system), with other
         # definitions sorting between them; a reference to either spelling differs from an existing name only by letter case
@@ -131,7 +163,14 @@ class C09(Check):
                     df["to"] = rng.choice(others)
                 else:
                     ok = False
-            if kind == "self":
+            if kind == "rel_outer":
+                df["how"] = rng.randrange(8)
+                deep = [k for k in keys if len(uni.defs[k]["name"].split(".")) >= 3]
+                if deep:
+                    df["at"] = rng.choice(deep)
+                else:
+                    ok = False
+            if kind in ("self", "self_twin"):
                 if T.is_service(uni.defs[at]):
                     ok = False
                 df["rel"] = rng.random() < 0.5
@@ -140,6 +179,11 @@ class C09(Check):
                 if at in msgs and len(others) >= n - 1:
                     df["via"] = rng.sample(others, n - 1)
                 else:
+                    ok = False
+            if ok:
+                try:
+                    apply_defect(ws, df)
+                except InvalidScenario:
                     ok = False
             if ok:
                 scn["defect"] = df
@@ -209,7 +253,7 @@ class C09(Check):
             # stand-alone reads (the reference for "equal to what reading that definition on its own yields")
             base_uni = Universe(scn["ws"])
             for k in base_uni.defs:
-                if poisoned([k]) or (df and df["kind"] in ("dup", "case_twin")):
+                if poisoned([k]) or (df and df["kind"] in ("dup", "case_twin", "self_twin")):
                     continue
                 ri = base_uni.root_of[k]
                 op = {"op": "rf", "files": [{"p": base_uni.file_of(k)}], "roots": [{"p": base_uni.roots[ri]["dir"]}],
@@ -240,7 +284,7 @@ class C09(Check):
                     elif classify_exc(res["exc"]) != "IDE":
                         out.fail("C09.clean-failure", "read %d: %s defect reported as %s: %s" % (i, df["kind"], type(res["exc"]).__name__, str(res["exc"])[:300]), "%s:%s" % (df["kind"], type(res["exc"]).__name__))
                     continue
-                if df and df["kind"] in ("dup", "case_twin"):
+                if df and df["kind"] in ("dup", "case_twin", "self_twin"):
                     continue  # reads that do not reference the duplicated / case-colliding name: unspecified
                 if not res["ok"]:
                     out.fail("C09.target", "read %d: valid graph rejected: %s: %s" % (i, type(res["exc"]).__name__, str(res["exc"])[:400]), "rejected:" + type(res["exc"]).__name__)
